@@ -307,8 +307,10 @@ func tickerRotationProbe(c *core.Ctx, base string) {
 		result["error"] = err.Error()
 		return
 	}
-	if err := w.Start(); err != nil {
-		result["error"] = err.Error()
+	var serr error
+	withSharedHook(func() { serr = w.Start() })
+	if serr != nil {
+		result["error"] = serr.Error()
 		return
 	}
 	w.Group().SetHeadSizeLimit(4096)
@@ -319,15 +321,19 @@ func tickerRotationProbe(c *core.Ctx, base string) {
 		result["error"] = "no filler"
 		return
 	}
-	w.Write(filler) // peer block part: buffered
-	w.Write(x)      // buffer runs full after 40 bytes of this record
+	withSharedHook(func() {
+		w.Write(filler) // peer block part: buffered
+		w.Write(x)      // buffer runs full after 40 bytes of this record
+	})
 	rotated := false
 	for i := 0; i < 80 && !rotated; i++ { // the group checks its limits every 5 s
 		time.Sleep(100 * time.Millisecond)
 		rotated = w.Group().MaxIndex() > 0
 	}
-	w.WriteSync(cs.EndHeightMessage{Height: 1})
-	w.Write(mkMsg(4, 4, 2, c.Seed))
+	withSharedHook(func() {
+		w.WriteSync(cs.EndHeightMessage{Height: 1})
+		w.Write(mkMsg(4, 4, 2, c.Seed))
+	})
 	w.Stop()
 	w.Group().Head.Close()
 	result["rotated_by_ticker"] = rotated
